@@ -449,7 +449,14 @@ func checkRoll(c RollCase, dir string) *hx.Violation {
 			}(g)
 		}
 		close(start)
-		wg.Wait()
+		// an in-memory counter update returns at once; a call that has not returned after 15 s is stuck on the limiter's own lock
+		done := make(chan struct{})
+		go func() { wg.Wait(); close(done) }()
+		select {
+		case <-done:
+		case <-time.After(15 * time.Second):
+			return hx.V("limiter-call-never-returns", "round %d: of %d concurrent requests right after the interval elapsed (log file: %v) at least one has not returned after 15 s", r, c.Goroutines, c.LogFile)
+		}
 		nrs := append([]int{}, got...)
 		sort.Ints(nrs)
 		passed := 0
